@@ -21,6 +21,8 @@ struct Subject {
     tables: Vec<&'static str>,
     strategy: &'static str,
     rewritten: Arc<Relation>,
+    /// structural features of the ORIGINAL relation (features.rs)
+    features: Vec<String>,
 }
 
 fn rows_of_unit(t: &Table, ui: usize, u: i64) -> Vec<Vec<Cell>> {
@@ -40,11 +42,25 @@ pub fn run(ctx: &Ctx) -> Report {
     let relations = world.relations();
     let mut subjects: Vec<Subject> = vec![];
     let step = ctx.tier.pick(4, 1);
-    for (i, g) in queries(ctx.tier).into_iter().enumerate() {
-        if g.tables.iter().any(|t| *t == "m") || g.tables.iter().all(|t| *t == "ref") {
+    // hand-written E-sql (quick: every fourth) followed by the composed terms: quick = every unary constructor over
+    // the protected tables and every join constructor over the pairs of {users, orders, ref} with a protected side;
+    // thorough = every term of depth <= 2
+    let mut all = queries(ctx.tier);
+    let n_hand = all.len();
+    {
+        let mut seen: std::collections::BTreeSet<String> = all.iter().map(|g| g.sql.clone()).collect();
+        let composed = if ctx.tier == Tier::Quick { crate::sqlgen::composed(1).into_iter().filter(|g| !g.tables.contains(&"items")).collect::<Vec<_>>() } else { crate::sqlgen::composed(2) };
+        for g in composed {
+            if seen.insert(g.sql.clone()) {
+                all.push(g);
+            }
+        }
+    }
+    for (i, g) in all.into_iter().enumerate() {
+        if g.tables.iter().any(|t| *t == "m" || *t == "p" || *t == "q") || g.tables.iter().all(|t| *t == "ref") {
             continue;
         }
-        if i % step != 0 {
+        if i % step != 0 && i < n_hand {
             continue;
         }
         for (sname, strat) in [("hard", Strategy::Hard), ("soft", Strategy::Soft)] {
@@ -52,8 +68,10 @@ pub fn run(ctx: &Ctx) -> Report {
             if !ctx.wants(&id) {
                 continue;
             }
+            let mut feats: Vec<String> = vec![];
             let r = guarded(|| -> Result<Relation, String> {
                 let rel = Relation::try_from(parse(&g.sql).map_err(|e| e.to_string())?.with(&relations)).map_err(|e| e.to_string())?;
+                feats = crate::features::features(&rel);
                 let out = rel
                     .rewrite_as_privacy_unit_preserving(&relations, None, crate::c18::privacy_unit(), DpParameters::from_epsilon_delta(1.0, 1e-3), Some(strat))
                     .map_err(|e| e.to_string())?;
@@ -68,7 +86,7 @@ pub fn run(ctx: &Ctx) -> Report {
                         for t in &g.tags {
                             head.reach("accepted_by_tag", t);
                         }
-                        subjects.push(Subject { sql: g.sql.clone(), tables: g.tables.clone(), strategy: sname, rewritten: Arc::new(rel) });
+                        subjects.push(Subject { sql: g.sql.clone(), tables: g.tables.clone(), strategy: sname, rewritten: Arc::new(rel), features: feats.clone() });
                     } else {
                         head.add_count("accepted_as_public(no unit column)", 1);
                     }
@@ -89,6 +107,7 @@ pub fn run(ctx: &Ctx) -> Report {
         by_tables.entry(t).or_default().push(s);
     }
     let tier = ctx.tier;
+    let known = crate::features::open_known("C05");
     for (tables, subs) in by_tables {
         let n = match (tier, tables.len()) {
             (Tier::Quick, 1) => 2,
@@ -102,6 +121,7 @@ pub fn run(ctx: &Ctx) -> Report {
         let chunks: Vec<Vec<Db>> = dbs.chunks(chunk).map(|c| c.to_vec()).collect();
         let world = &world;
         let subs = &subs;
+        let known = &known;
         let part = par_reports(chunks, level, move |dbs, r| {
             let e = new_engine(world);
             e.conn.set_prepared_statement_cache_capacity(512);
@@ -134,7 +154,7 @@ pub fn run(ctx: &Ctx) -> Report {
                         if row[ui] == Cell::Null || row[wi] == Cell::Null {
                             let what = if row[ui] == Cell::Null { "null-unit" } else { "null-weight" };
                             r.violation(
-                                format!("pup {what} strategy={} :: {}", s.strategy, s.sql),
+                                crate::features::resolve(&format!("pup {what} strategy={}", s.strategy), &s.sql, &s.features, known),
                                 &case_id,
                                 json!({"query": s.sql, "strategy": s.strategy, "row": row.iter().map(|c| c.show()).collect::<Vec<_>>(), "result": full.show(), "database": show_db(db)}),
                             );
@@ -152,7 +172,7 @@ pub fn run(ctx: &Ctx) -> Report {
                         r.evaluations += 1;
                         if part.rows.iter().any(|row| row[ui] != Cell::Int(u)) {
                             r.violation(
-                                format!("pup foreign-unit strategy={} :: {}", s.strategy, s.sql),
+                                crate::features::resolve(&format!("pup foreign-unit strategy={}", s.strategy), &s.sql, &s.features, known),
                                 &case_id,
                                 json!({"query": s.sql, "strategy": s.strategy, "unit": u, "result_on_D_restricted_to_u": part.show(), "database": show_db(db)}),
                             );
@@ -162,11 +182,14 @@ pub fn run(ctx: &Ctx) -> Report {
                         let b = rows_of_unit(&part, ui, u);
                         if !a.is_empty() || !b.is_empty() {
                             r.distinct_nontrivial += 1;
+                            if r.samples.is_empty() && a.len() >= 2 {
+                                r.sample(json!({"query": s.sql, "strategy": s.strategy, "database": show_db(db), "unit": u, "rows_of_u_in_R(D)": a.iter().map(|r| r.iter().map(|c| c.show()).collect::<Vec<_>>().join(",")).collect::<Vec<_>>(), "R(D restricted to u)": b.len()}));
+                            }
                         }
                         let same = a.len() == b.len() && a.iter().zip(b.iter()).all(|(x, y)| x.iter().zip(y.iter()).all(|(c, d)| c.close(d, 1e-9)));
                         if !same {
                             r.violation(
-                                format!("pup rows-depend-on-other-units strategy={} :: {}", s.strategy, s.sql),
+                                crate::features::resolve(&format!("pup rows-depend-on-other-units strategy={}", s.strategy), &s.sql, &s.features, known),
                                 &case_id,
                                 json!({"query": s.sql, "strategy": s.strategy, "unit": u, "rows_of_u_in_R(D)": a.iter().map(|r| r.iter().map(|c| c.show()).collect::<Vec<_>>().join(",")).collect::<Vec<_>>(),
                                        "R(D restricted to u)": b.iter().map(|r| r.iter().map(|c| c.show()).collect::<Vec<_>>().join(",")).collect::<Vec<_>>(), "database": show_db(db)}),
@@ -180,7 +203,6 @@ pub fn run(ctx: &Ctx) -> Report {
         });
         head.merge(part);
     }
-    head.sample(json!({"query": "SELECT u.age, o.amount FROM users u JOIN orders o ON u.id = o.user_id", "strategy": "hard", "database": {"users": ["(1,18,'A')", "(2,20,'B')"], "orders": ["(1,1,10)"]}, "units": [1, 2]}));
     head.rule = "subjects = E-sql queries (quick: every third) accepted by rewrite_as_privacy_unit_preserving under the Hard and the Soft strategy with a tracked result (privacy unit = users.id, orders and items through their foreign-key path) x ALL database instances x EVERY privacy unit u; the rewritten relation is materialised node by node on D and on D restricted to u (protected rows not owned by u deleted; ownership computed by the harness's own row model); oracle: unit and weight never NULL; rows of R(D) attributed to u = R(D|u) as multisets; R(D|u) carries only u. non-trivial = (subject, database, unit) triples with at least one row".into();
     head.assumptions = vec!["row privacy (table m) and hashed unit ids are not in the quick alphabet".into()];
     head
